@@ -1,4 +1,306 @@
-//! C01 part `shapes` (stub).
+//! C01 part `shapes`: every generated table reader of read-fonts (`read` / `read_with_args`,
+//! the marker's `*_byte_range()` fns, every generated getter) against the Lean evaluation of the
+//! DSL program that translate/shapes.py extracted from the same generated source.
+//!
+//! `gen.rs` (written by the translator on every run) is the dispatch table over the REAL readers.
+//! Inputs are feedback-directed: the real reader's own answer (ranges of a successful read) tells
+//! where the validation boundary of each table is, and the byte strings are cut exactly at, one
+//! before and one after it (and at every inner field boundary), with small / huge / sign-bit count
+//! values, for several valuations of the version / flag fields that switch conditional fields.
+//!
+//! Oracles (model independent): no panic in `read`; no panic in any getter, `min_byte_range`,
+//! `min_table_bytes` after a successful read; same observation from an odd-offset copy on another
+//! thread (purity); every reported range within the data.
 use fv_harness::common::*;
+use read_fonts::ReadError;
+use std::ops::Range;
 
-pub fn run(_cfg: &Config, _s: &mut Session) {}
+#[path = "gen.rs"]
+#[allow(unused_variables, clippy::all)]
+mod gen;
+
+pub struct Entry {
+    pub name: &'static str,
+    pub nargs: usize,
+    pub arg_sizes: &'static [usize],
+    pub read: fn(&[u8], &[u64]) -> String,
+    pub getters: fn(&[u8], &[u64]),
+}
+
+/// a read argument from its raw big-endian value (what the parent table would have read)
+pub fn mk<T: font_types::Scalar + font_types::FixedSize>(raw: u64) -> T {
+    let b = raw.to_be_bytes();
+    T::read(&b[8 - T::RAW_BYTE_LEN..]).unwrap()
+}
+
+pub fn obs_err(e: ReadError) -> String {
+    match e {
+        ReadError::OutOfBounds => "err:OutOfBounds".into(),
+        ReadError::InvalidArrayLen => "err:InvalidArrayLen".into(),
+        other => format!("err:{:?}", other).split(['(', ' ', '{']).next().unwrap().to_string(),
+    }
+}
+
+pub fn rr(r: Range<usize>) -> String {
+    format!("{}..{}", r.start, r.end)
+}
+
+pub fn rro(r: Option<Range<usize>>) -> String {
+    match r {
+        Some(r) => rr(r),
+        None => "none".into(),
+    }
+}
+
+fn biased_byte(rng: &mut Rng) -> u8 {
+    match rng.below(20) {
+        0..=10 => 0,
+        11..=14 => rng.below(5) as u8,
+        15 => 0xFF,
+        16 => 0x80,
+        17 => rng.below(32) as u8,
+        _ => rng.next() as u8,
+    }
+}
+
+fn biased_arg(rng: &mut Rng, size: usize) -> u64 {
+    let mask = if size >= 8 { u64::MAX } else { (1u64 << (8 * size)) - 1 };
+    let v = match rng.below(12) {
+        0 => 0,
+        1 => 1,
+        2 => 2,
+        3 => 3,
+        4 => rng.below(16),
+        5 => 0xFF,
+        6 => 0x100,
+        7 => mask,
+        8 => mask >> 1,
+        9 => (mask >> 1) + 1,
+        _ => rng.next(),
+    };
+    v & mask
+}
+
+/// parse "ok a..b none c..d" into the maximal range end
+fn max_end(obs: &str) -> Option<usize> {
+    if !obs.starts_with("ok") {
+        return None;
+    }
+    let mut m = 0usize;
+    for tok in obs.split(' ').skip(1) {
+        if let Some((_, b)) = tok.split_once("..") {
+            m = m.max(b.parse::<usize>().ok()?);
+        }
+    }
+    Some(m)
+}
+
+fn boundaries(obs: &str) -> Vec<usize> {
+    let mut v = vec![];
+    for tok in obs.split(' ').skip(1) {
+        if let Some((a, b)) = tok.split_once("..") {
+            if let (Ok(a), Ok(b)) = (a.parse::<usize>(), b.parse::<usize>()) {
+                v.push(a);
+                v.push(b);
+            }
+        }
+    }
+    v.sort();
+    v.dedup();
+    v
+}
+
+struct Stats {
+    ok: u64,
+    err: u64,
+}
+
+fn one_case(
+    s: &mut Session,
+    e: &Entry,
+    bytes: &[u8],
+    args: &[u64],
+    st: &mut Stats,
+    seen: &mut std::collections::HashSet<String>,
+    pending_purity: &mut Vec<(Vec<u8>, Vec<u64>, String)>,
+) -> Option<String> {
+    let mut req = format!("shape {} {}", e.name, hex(bytes));
+    for a in args {
+        req.push(' ');
+        req.push_str(&a.to_string());
+    }
+    if !seen.insert(req.clone()) {
+        return None;
+    }
+    let r = catch(|| (e.read)(bytes, args));
+    s.oracle("shapes.read.no-panic", r.is_ok(), || req.clone(), || format!("{:?}", r.as_ref().err()));
+    let obs = match r {
+        Ok(o) => o,
+        Err(_) => "panic".to_string(),
+    };
+    if obs.starts_with("ok") {
+        st.ok += 1;
+        let g = catch(|| (e.getters)(bytes, args));
+        s.oracle("shapes.getters.no-panic", g.is_ok(), || req.clone(), || format!("{:?}", g.as_ref().err()));
+        let inb = max_end(&obs).map(|m| m <= bytes.len()).unwrap_or(false);
+        s.oracle("shapes.ranges-in-bounds", inb, || req.clone(), || obs.clone());
+        // the theorem's conclusion (`getterOk` for every getter) evaluated by the model on this input
+        s.case("shapes.getters", format!("getters{}", &req[5..]), if g.is_ok() { "ok all".into() } else { "panic".into() });
+    } else {
+        st.err += 1;
+    }
+    s.case("shapes.read", req, obs.clone());
+    pending_purity.push((bytes.to_vec(), args.to_vec(), obs.clone()));
+    Some(obs)
+}
+
+pub fn run(cfg: &Config, s: &mut Session) {
+    let table = gen::table();
+    s.count(&format!("shapes.entries:{}", table.len()));
+    s.case("shapes.registry", "extcheck".into(), "ok".into());
+    let per = if cfg.thorough() { 400 } else { 40 };
+    let mut never_ok: Vec<&str> = vec![];
+    let mut never_err: Vec<&str> = vec![];
+    for (ei, e) in table.iter().enumerate() {
+        let mut rng = Rng::new(cfg.seed.wrapping_mul(0x1_0001).wrapping_add(ei as u64) ^ 0xC01);
+        let mut st = Stats { ok: 0, err: 0 };
+        let mut seen = std::collections::HashSet::new();
+        let mut purity: Vec<(Vec<u8>, Vec<u64>, String)> = vec![];
+        for trial in 0..per {
+            let args: Vec<u64> = e.arg_sizes.iter().map(|sz| biased_arg(&mut rng, *sz)).collect();
+            let len = match rng.below(4) {
+                0 => rng.below(12) as usize,
+                1 => rng.below(48) as usize,
+                2 => rng.below(160) as usize,
+                _ => rng.below(400) as usize,
+            };
+            let mut buf: Vec<u8> = (0..len).map(|_| biased_byte(&mut rng)).collect();
+            if trial % 7 == 3 {
+                // all-zero header: every count 0, every condition false
+                for b in buf.iter_mut().take(24) {
+                    *b = 0;
+                }
+            }
+            let mut obs = one_case(s, e, &buf, &args, &mut st, &mut seen, &mut purity);
+            // grow with zeros until the reader accepts (finds the far side of the boundary)
+            if obs.as_deref().map(|o| !o.starts_with("ok")).unwrap_or(false) {
+                for target in [len + 64, 1024, 8192, 70_000, 300_000] {
+                    if target > 8192 && !(trial % 5 == 0) {
+                        break;
+                    }
+                    let mut big = buf.clone();
+                    big.resize(target, 0);
+                    let r = catch(|| (e.read)(&big, &args));
+                    if let Ok(o) = &r {
+                        if o.starts_with("ok") {
+                            // only feed moderately sized inputs to the model; larger ones are still
+                            // walked through the getters below
+                            if target <= 8192 {
+                                obs = one_case(s, e, &big, &args, &mut st, &mut seen, &mut purity);
+                            } else {
+                                let g = catch(|| (e.getters)(&big, &args));
+                                s.oracle("shapes.getters.no-panic", g.is_ok(), || format!("{} zeros-extended-to {target} args {:?} {}", e.name, args, hex(&buf)), || format!("{:?}", g.as_ref().err()));
+                                obs = Some(o.clone());
+                                s.count("shapes.big-ok-not-sent-to-model");
+                            }
+                            buf = big;
+                            break;
+                        }
+                    } else {
+                        s.oracle("shapes.read.no-panic", false, || format!("{} zeros-extended-to {target} args {:?} {}", e.name, args, hex(&buf)), || format!("{:?}", r.as_ref().err()));
+                    }
+                }
+            }
+            // cut at / around every boundary the real reader reported
+            if let Some(o) = obs {
+                if o.starts_with("ok") {
+                    let bs = boundaries(&o);
+                    let total = bs.last().copied().unwrap_or(0);
+                    let mut cuts: Vec<usize> = vec![];
+                    for b in &bs {
+                        for d in [-1i64, 0, 1] {
+                            let c = *b as i64 + d;
+                            if c >= 0 {
+                                cuts.push(c as usize);
+                            }
+                        }
+                    }
+                    cuts.push(total + 2);
+                    cuts.push(total + 7);
+                    cuts.sort();
+                    cuts.dedup();
+                    for c in cuts {
+                        if c > 9000 {
+                            continue;
+                        }
+                        let mut v = buf.clone();
+                        v.resize(c, if trial % 2 == 0 { 0 } else { 0xA5 });
+                        one_case(s, e, &v, &args, &mut st, &mut seen, &mut purity);
+                    }
+                }
+            }
+        }
+        // purity: the same inputs from an odd-offset copy, on another thread
+        let read = e.read;
+        let again: Vec<String> = std::thread::scope(|sc| {
+            sc.spawn(|| {
+                purity
+                    .iter()
+                    .map(|(b, a, _)| {
+                        let mut shifted = vec![0xEEu8; b.len() + 1];
+                        shifted[1..].copy_from_slice(b);
+                        catch(|| read(&shifted[1..], a)).unwrap_or_else(|_| "panic".into())
+                    })
+                    .collect()
+            })
+            .join()
+            .unwrap()
+        });
+        for ((b, a, o), o2) in purity.iter().zip(again.iter()) {
+            s.oracle("shapes.purity", o == o2, || format!("{} args {:?} {}", e.name, a, hex(b)), || format!("{o} vs {o2}"));
+        }
+        if st.ok == 0 {
+            never_ok.push(e.name);
+        }
+        if st.err == 0 {
+            never_err.push(e.name);
+        }
+        s.count(&format!("shapes.ok-cases:{}", match st.ok { 0 => "0", 1..=9 => "1..9", 10..=99 => "10..99", _ => "100+" }));
+    }
+    s.count(&format!("shapes.never-ok:{}", never_ok.len()));
+    s.count(&format!("shapes.never-err:{}", never_err.len()));
+    if !never_ok.is_empty() {
+        s.notes.push(format!("shapes never read successfully by the generator: {}", never_ok.join(",")));
+    }
+    rec_cases(cfg, s);
+}
+
+/// hand-written callees of generated code that the model transcribes (Model/ShapeExt.lean)
+fn rec_cases(cfg: &Config, s: &mut Session) {
+    use read_fonts::tables::gpos::{ValueFormat, ValueRecord};
+    use read_fonts::{ComputeSize, FontData, FontReadWithArgs};
+    let mut rng = Rng::new(cfg.seed ^ 0xC01_EC);
+    let n = if cfg.thorough() { 20000 } else { 2000 };
+    let zeros = vec![0u8; 64];
+    for i in 0..n {
+        let fmt_raw: u64 = if i < 256 { i as u64 } else if i < 512 { (i as u64 - 256) << 8 | rng.below(256) } else { rng.below(65536) };
+        let len = rng.below(20) as usize;
+        let fmt: ValueFormat = mk(fmt_raw);
+        let r = catch(|| ValueRecord::read_with_args(FontData::new(&zeros[..len]), &fmt).is_ok());
+        s.oracle("shapes.rec.no-panic", r.is_ok(), || format!("ValueRecord fmt {fmt_raw} len {len}"), || String::new());
+        s.case("shapes.recread", format!("recread ValueRecord {len} {fmt_raw}"), if r.unwrap_or(false) { "1" } else { "0" }.into());
+        let sz = catch(|| <ValueRecord as ComputeSize>::compute_size(&fmt));
+        s.case("shapes.recsize", format!("recsize ValueRecord {fmt_raw}"), match sz { Ok(Ok(n)) => n.to_string(), Ok(Err(e)) => obs_err(e), Err(_) => "panic".into() });
+    }
+    {
+        use read_fonts::tables::ift::IdDeltaOrLength;
+        for off in [0u64, 1, 2, 0xFFFF_FFFF, 0x8000_0000] {
+            for len in 0..6usize {
+                let o: font_types::Offset32 = mk(off);
+                let r = catch(|| IdDeltaOrLength::read_with_args(FontData::new(&zeros[..len]), &o).is_ok());
+                s.oracle("shapes.rec.no-panic", r.is_ok(), || format!("IdDeltaOrLength off {off} len {len}"), || String::new());
+                s.case("shapes.recread", format!("recread IdDeltaOrLength {len} {off}"), if r.unwrap_or(false) { "1" } else { "0" }.into());
+            }
+        }
+    }
+}
